@@ -66,10 +66,10 @@ Print Assumptions c30_start_rtp_receivers_no_panic.
    incomingTrack.ssrcs[0]) panics on a rid-only section under Plan-B semantics
    when no transceiver can be added.  Witness replayed on the real code in the
    corpus of suite recv; fixed in /repo (known/C30.txt). *)
-Theorem c30_start_rtp_receivers_unfixed_refuted :
+Theorem c30_planb_log_guard_is_needed :
   exists d, start_rtp_receivers_unfixed (fun _ => false) (fun _ => false) PlanB d = Panic.
 Proof. exists planb_witness. exact start_rtp_receivers_unfixed_panics. Qed.
-Print Assumptions c30_start_rtp_receivers_unfixed_refuted.
+Print Assumptions c30_planb_log_guard_is_needed.
 
 (* peerconnection.go handleUndeclaredSSRC: a=msid split[0], split[1] *)
 Theorem c30_handle_undeclared_ssrc_no_panic :
